@@ -147,7 +147,7 @@ def main(p):
             except BaseException as e:
                 fail(cell, 'sync', vals, 'exception', probelib.exc_info(e))
             # REST
-            if rest_ok:
+            if rest_ok and not cell.get('no_rest'):
                 seam.log.clear()
                 if cell.get('stream'):
                     seam.responder = lambda req: (200, b'[{"ok": true}]')
